@@ -38,7 +38,7 @@ CLAIMED["C18"] = dict(
     text="Fault-free plane: write/read round trips for every compression level and comment kind (with and without 1..7-byte short reads) must return an equal matrix; "
          "JCF and string constructors are compared with reference readers. Fault planes, one forked execution under ASan/UBSan each: every truncation offset of files produced by the "
          "real writer, single-bit flips (complete for small files), EIO at seeded offsets, PNGs of every valid bit depth x colour type x interlacing written by libpng directly, "
-         "every listed JCF corruption, torn JCF text, and write-side faults. Admissible: NULL, termination by libpng/m4ri_die, or a matrix equal to the reference; never a sanitizer report, "
+         "every listed JCF corruption, torn JCF text, and write-side faults. Admissible: NULL, termination by libpng/m4ri_die, or a matrix equal to the reference (a truncated PNG - a proper prefix of the file - must be rejected: NULL or termination only); never a sanitizer report, "
          "a signal, a differing matrix, dirty padding or an accepted unsupported/malformed file.",
     note="Trusts ASan/UBSan to expose accesses outside allocated buffers; libpng/zlib internals are real but their own allocations are outside the ledger; "
          "the reference JCF reader is 30 lines written from the format description in io.h.")
